@@ -399,6 +399,9 @@ def oracle(c, o, label="DEV"):
             return f"C10: fix is not approved but user-controlled parts disappeared: {want} -> {got}", None
     if want:
         return None
+    if label == "C05":
+        if "fix" not in c["flags"] and not o["eq_old"]:
+            return f"C05: fix is not approved (flags {c['flags']}) but the value changed: {render_tree(c['tree'])} -> {o['arg']}", None
     if label in ("C02", "DEV"):
         if "fix" in c["flags"]:
             if not o["eq_new"]:
